@@ -47,8 +47,14 @@ def run_align(c, payload, label, timeout=1800):
         with open(inp, "w") as f:
             json.dump(payload, f)
         t = time.time()
+        e = vlib.env()
+        shm = None
+        if os.path.isdir("/dev/shm"):   # as vlib.run_harness: one scratch root for every temporary directory, removed below
+            shm = "/dev/shm/verif-h-%d-%s" % (os.getpid(), os.path.basename(d))
+            os.makedirs(shm, exist_ok=True)
+            e.update(VERIF_SHM=shm, TMPDIR=shm)
         p = subprocess.run(["timeout", str(timeout), os.path.join(vlib.BUILD, "bin", "align"), inp, outp],
-                           stdout=subprocess.PIPE, stderr=subprocess.STDOUT, text=True, env=vlib.env())
+                           stdout=subprocess.PIPE, stderr=subprocess.STDOUT, text=True, env=e)
         if p.returncode == 0 and os.path.exists(outp):
             res = json.load(open(outp))
         elif os.path.exists(outp + ".partial"):
@@ -64,6 +70,8 @@ def run_align(c, payload, label, timeout=1800):
         return res
     finally:
         shutil.rmtree(d, ignore_errors=True)
+        if os.path.isdir("/dev/shm"):
+            shutil.rmtree("/dev/shm/verif-h-%d-%s" % (os.getpid(), os.path.basename(d)), ignore_errors=True)
 
 
 def vacuous(c, msg):
